@@ -67,7 +67,7 @@ Proof.
         cbn [wire_ok wrun fold_left wstep andb wsent wrcvd wval]. rewrite F1, F2, F3.
         split.
         { unfold wsend_ok. cbn [wsent wrcvd wval]. rewrite Hv. destruct (validated s) eqn:Ev; [reflexivity|].
-          cbn [orb]. rewrite andb_true_r. apply Z.leb_le.
+          cbn [orb]. rewrite andb_true_r. apply Z.ltb_lt.
           pose proof (permitted_send_strict s Ev Em). lia. }
         repeat split; auto; try lia; try discriminate.
     + (* Timeout *)
@@ -91,7 +91,7 @@ Proof.
         destruct (Z.ltb_spec 0 (bytesSent s)) as [Hpos|Hnp]; cbn [andb] in Es; [|lia].
         apply Z.eqb_neq in Es. pose proof (permitted_send_strict s Ev Es). lia. }
       split.
-      { unfold wsend_ok. cbn [wsent wrcvd wval]. rewrite Hv. destruct (validated s) eqn:Ev; [reflexivity|].
+      { unfold wsendu_ok. cbn [wsent wrcvd wval]. rewrite Hv. destruct (validated s) eqn:Ev; [reflexivity|].
         cbn [orb]. rewrite andb_true_r. apply Z.leb_le. specialize (Hlim eq_refl). lia. }
       repeat split; auto; try lia; try discriminate.
       all: try (match goal with H : Some _ = Some _ |- _ => inversion H; subst; try lia; auto end).
@@ -106,7 +106,7 @@ Proof.
         cbn [sph closedPkt closeSent cRcvd cSent cCount wsent wrcvd wval].
       * apply andb_prop in Eg as [_ Eg]. apply Z.leb_le in Eg.
         split.
-        { unfold wsend_ok. cbn [wsent wrcvd wval]. rewrite orb_false_r, Hv.
+        { unfold wsendu_ok. cbn [wsent wrcvd wval]. rewrite orb_false_r, Hv.
           destruct (validated s) eqn:Ev; [reflexivity|]. cbn [orb]. rewrite andb_true_r. apply Z.leb_le.
           specialize (Hlim eq_refl). lia. }
         rewrite orb_false_r. repeat split; auto; try lia; try discriminate.
@@ -136,9 +136,17 @@ Qed.
 
 (** the predicate is not trivially true: the trace of the former finding (close written over the limit) fails it *)
 Example wire_ok_rejects :
-  wire_ok (WS 0 0 false) [WRecv 1200 false; WRecv 1200 false; WSend 1280; WSend 1280; WSend 1280; WSend 1280; WSend 1280; WSend 1280; WSend 106] = false /\
+  wire_ok (WS 0 0 false) [WRecv 1200 false; WRecv 1200 false; WSend 1280; WSend 1280; WSend 1280; WSend 1280; WSend 1280; WSend 1280; WSendU 106] = false /\
   wire_ok (WS 0 0 false) [WRecv 1200 false; WRecv 1200 false; WSend 1280; WSend 1280; WSend 1280; WSend 1280; WSend 1280; WSend 1280; WRecv 1200 true; WSend 1280] = true /\
   ctrace_ev (cinit false 200000000) close_example_ops =
     [WRecv 1200 false; WRecv 1200 false; WSend 1280; WSend 1280; WSend 1280; WSend 1280; WSend 1280; WSend 1280;
      WRecv 37 false; WRecv 37 false; WRecv 37 false; WRecv 37 false].
+Proof. repeat split; vm_compute; reflexivity. Qed.
+
+(** the gate blocks AT the limit: a gated datagram started at equality is rejected (a >= -> > mutation of
+    isAmplificationLimited shows), an ungated one is not; nothing may be sent before anything arrived *)
+Example wire_ok_strict :
+  wire_ok (WS 0 0 false) [WRecv 100 false; WSend 300; WSend 5000] = false /\
+  wire_ok (WS 0 0 false) [WRecv 100 false; WSend 300; WSendU 50] = true /\
+  wire_ok (WS 0 0 false) [WSend 5000] = false.
 Proof. repeat split; vm_compute; reflexivity. Qed.
